@@ -6,6 +6,7 @@ portable codec of `IrisVerif/Model/Portable.lean`.  `Funs` (the numerical routin
 `A` = steady autovalues) is universally quantified everywhere: nothing depends on what they compute.
 -/
 import IrisVerif.Lemmas.Heap
+import IrisVerif.Lemmas.HeapOwned
 import IrisVerif.Model.Portable
 
 namespace IrisVerif.C20
@@ -433,11 +434,159 @@ theorem variant_equals_singleton (F : InvData → List Val → List Val → Sol)
   simp [hsame.1, hsame.2]
 
 
-/- The corresponding statement for `steady` (`forEach (updVariant G d)` then `forEach (updVariant A d)`): every variant
-`v` ends with `A d (G d lv cv).1 (G d lv cv).2` in its two dicts.  It needs, besides `vs.Nodup`, that distinct variants
-own distinct dict objects (an ownership invariant of the heap that every operation preserves and that the harness
-checks on the real heap after every operation: the `D<k>` labels).  NOT proved here; the isolation theorems above do
-cover `steady` (any `G`, `A`). -/
+/-! ### steady: the same for the in-place updates, under the ownership invariant -/
+
+theorem observeVar_reads' {h : Heap} {v : Nat} {o : VarObs} (ho : observeVar h v = some o) :
+    ∃ (l c : Nat) (s : Option Nat), h.get v = some (.var l c s) ∧ h.get l = some (.dict o.levels) ∧
+      h.get c = some (.dict o.changes) ∧ (s = none → o.sol = none) ∧
+      (∀ sr, s = some sr → ∃ sd, h.get sr = some (.sol sd) ∧ o.sol = some sd) := by
+  unfold observeVar at ho
+  cases hgv : getVar h v with
+  | error e => simp [hgv] at ho
+  | ok t =>
+    obtain ⟨l, c, s, lv, cv⟩ := t
+    obtain ⟨hg, hl, hc⟩ := getVar_ok hgv
+    simp only [hgv] at ho
+    cases s with
+    | none =>
+      simp only [Option.some.injEq] at ho
+      subst ho
+      exact ⟨l, c, none, hg, hl, hc, (fun _ => rfl), (by intro sr hs; cases hs)⟩
+    | some sr =>
+      simp only [] at ho
+      cases hsr : h.get sr with
+      | none => simp [hsr] at ho
+      | some osr =>
+        cases osr with
+        | sol sd =>
+          simp only [hsr, Option.some.injEq] at ho
+          subst ho
+          exact ⟨l, c, some sr, hg, hl, hc, (by intro hs; cases hs), (by intro sr' hs; cases hs; exact ⟨sd, hsr, rfl⟩)⟩
+        | _ => simp [hsr] at ho
+
+/-- updating ANOTHER variant's dicts in place does not change what variant `v` shows (ownership: the dicts differ) -/
+theorem updVariant_other (G : InvData → List Val → List Val → List Val × List Val) (d : InvData) {h h' : Heap}
+    {v v' : Nat} {o : VarObs} (ow : Owned h) (hne : v ≠ v') (ho : observeVar h v = some o)
+    (hr : updVariant G d h v' = .ok h') : observeVar h' v = some o := by
+  obtain ⟨l, c, s, hg, hl, hc, _, hs⟩ := observeVar_reads' ho
+  unfold updVariant at hr
+  cases hgv : getVar h v' with
+  | error e => simp [hgv] at hr
+  | ok t =>
+    obtain ⟨l', c', s', lv', cv'⟩ := t
+    obtain ⟨hg', hl', hc'⟩ := getVar_ok hgv
+    simp only [hgv, Except.ok.injEq] at hr
+    subst hr
+    obtain ⟨n1, n2, n3, n4⟩ := ow.sep v v' l c s l' c' s' hg hg' hne
+    rw [← ho]
+    have keep : ∀ r : Nat, r ≠ l' → r ≠ c' →
+        ((h.set l' (.dict (G d lv' cv').1)).set c' (.dict (G d lv' cv').2)).get r = h.get r := by
+      intro r h1 h2
+      simp [h1, h2]
+    apply observeVar_congr (keep v (by intro hh; rw [hh, hl'] at hg; cases hg) (by intro hh; rw [hh, hc'] at hg; cases hg))
+    intro l2 c2 s2 hg2
+    rw [hg] at hg2
+    simp only [Option.some.injEq, Obj.var.injEq] at hg2
+    obtain ⟨rfl, rfl, rfl⟩ := hg2
+    refine ⟨keep _ n1 n2, keep _ n3 n4, ?_⟩
+    intro sr hsr
+    obtain ⟨sd, hsd, _⟩ := hs sr hsr
+    exact keep sr (by intro hh; rw [hh, hl'] at hsd; cases hsd) (by intro hh; rw [hh, hc'] at hsd; cases hsd)
+
+/-- updating variant `v` stores `G(invariant, v's levels, v's changes)` in its two dicts and keeps its solution -/
+theorem updVariant_self (G : InvData → List Val → List Val → List Val × List Val) (d : InvData) {h h' : Heap}
+    {v : Nat} {o : VarObs} (ow : Owned h) (ho : observeVar h v = some o) (hr : updVariant G d h v = .ok h') :
+    observeVar h' v = some ⟨(G d o.levels o.changes).1, (G d o.levels o.changes).2, o.sol⟩ := by
+  obtain ⟨l, c, s, hg, hl, hc, hs0, hs⟩ := observeVar_reads' ho
+  unfold updVariant at hr
+  have hgv : getVar h v = .ok (l, c, s, o.levels, o.changes) := by
+    unfold getVar
+    simp [hg, hl, hc]
+  simp only [hgv, Except.ok.injEq] at hr
+  subst hr
+  have hlc : l ≠ c := ow.ne v l c s hg
+  have hvl : v ≠ l := by intro hh; rw [hh, hl] at hg; cases hg
+  have hvc : v ≠ c := by intro hh; rw [hh, hc] at hg; cases hg
+  cases s with
+  | none =>
+    simp [observeVar, getVar, hvl, hvc, hlc, hg, hs0 rfl]
+  | some sr =>
+    obtain ⟨sd, hsd, hos⟩ := hs sr rfl
+    have hsl : sr ≠ l := by intro hh; rw [hh, hl] at hsd; cases hsd
+    have hsc : sr ≠ c := by intro hh; rw [hh, hc] at hsd; cases hsd
+    simp [observeVar, getVar, hvl, hvc, hlc, hg, hsl, hsc, hsd, hos]
+
+/-- one loop of in-place updates over pairwise distinct variant objects -/
+theorem upd_each_variant (G : InvData → List Val → List Val → List Val × List Val) (d : InvData) :
+    ∀ (vs : List Nat) (h h' : Heap), Owned h → vs.Nodup → forEach (updVariant G d) h vs = .ok h' →
+      Owned h' ∧
+      (∀ v o, v ∈ vs → observeVar h v = some o →
+        observeVar h' v = some ⟨(G d o.levels o.changes).1, (G d o.levels o.changes).2, o.sol⟩) ∧
+      (∀ v o, v ∉ vs → observeVar h v = some o → observeVar h' v = some o) := by
+  intro vs
+  induction vs with
+  | nil =>
+    intro h h' ow _ hr
+    simp only [forEach, Except.ok.injEq] at hr
+    subst hr
+    exact ⟨ow, (fun v o hv => by cases hv), fun _ _ _ ho => ho⟩
+  | cons x xs ih =>
+    intro h h' ow hnd hr
+    simp only [forEach] at hr
+    cases hx : updVariant G d h x with
+    | error e => simp [hx] at hr
+    | ok h1 =>
+      simp only [hx] at hr
+      obtain ⟨hxn, hnd'⟩ := List.nodup_cons.mp hnd
+      obtain ⟨ow', ih1, ih2⟩ := ih h1 h' (updVariant_owned ow hx) hnd' hr
+      refine ⟨ow', ?_, ?_⟩
+      · intro v o hv ho
+        simp only [List.mem_cons] at hv
+        rcases hv with rfl | hv
+        · exact ih2 v _ hxn (updVariant_self G d ow ho hx)
+        · have hne : v ≠ x := by intro hh; subst hh; exact hxn hv
+          exact ih1 v o hv (updVariant_other G d ow hne ho hx)
+      · intro v o hv ho
+        simp only [List.mem_cons, not_or] at hv
+        exact ih2 v o hv.2 (updVariant_other G d ow hv.1 ho hx)
+
+/-- VARIANT THEOREM (steady): in an owned heap (`Owned` holds initially and is preserved by every operation:
+`Owned.empty`, `newModel_owned`, `step_owned`), for a model whose variant objects are pairwise distinct, `m.steady()` --
+the solver `G` for every variant, then the autovalue update `A` for every variant -- leaves every variant `v` with
+`A(inv, G(inv, v's levels, v's changes))` in its own two dicts and its solution untouched, whatever the number of
+variants, the other variants' values and the history. -/
+theorem steady_each_variant (G A : InvData → List Val → List Val → List Val × List Val) {h h' : Heap} {m : Nat}
+    {i : Nat} {vs : List Nat} {d : InvData} (ow : Owned h) (hm : getModel h m = .ok (i, vs, d)) (hnd : vs.Nodup)
+    (hr : steady G A h m = .ok h') :
+    Owned h' ∧ ∀ v o, v ∈ vs → observeVar h v = some o →
+      observeVar h' v = some ⟨(A d (G d o.levels o.changes).1 (G d o.levels o.changes).2).1,
+        (A d (G d o.levels o.changes).1 (G d o.levels o.changes).2).2, o.sol⟩ := by
+  unfold steady at hr
+  simp only [hm] at hr
+  cases h1 : forEach (updVariant G d) h vs with
+  | error e => simp [h1] at hr
+  | ok hmid =>
+    simp only [h1] at hr
+    obtain ⟨ow1, a1, _⟩ := upd_each_variant G d vs h hmid ow hnd h1
+    obtain ⟨ow2, a2, _⟩ := upd_each_variant A d vs hmid h' ow1 hnd hr
+    exact ⟨ow2, fun v o hv ho => a2 v _ hv (a1 v o hv ho)⟩
+
+/-- ownership holds after ANY history from the empty heap: it is an invariant of the operation semantics -/
+theorem owned_after_history (fs : Funs) (d : InvData) : ∀ (ops : List Op), Owned (runOps fs (newModel Heap.empty d).2 ops) := by
+  have gen : ∀ (ops : List Op) (h : Heap), Owned h → Owned (runOps fs h ops) := by
+    intro ops
+    induction ops with
+    | nil => intro h ow; exact ow
+    | cons op rest ih =>
+      intro h ow
+      simp only [runOps]
+      cases hst : step fs h op with
+      | error e => exact ih h ow
+      | ok p =>
+        obtain ⟨r, h'⟩ := p
+        exact ih h' (step_owned fs ow op hst)
+  intro ops
+  exact gen ops _ (newModel_owned Owned.empty d)
 
 /-! ## non-vacuity: the hypotheses are met by a concrete model -/
 
@@ -580,6 +729,69 @@ theorem context_roundtrip (keys : List String) (h : "__builtins__" ∉ keys) : e
   intro hh
   subst hh
   exact h hk
+
+/-! ### composition on whole lists: order and content -/
+
+/-- normal form of a quantity / equation after a round trip: attributes `None` become the empty set -/
+def normQ (q : Quantity) : Quantity := { q with attrs := some (q.attrs.getD []) }
+def normE (e : Equation) : Equation := { e with attrs := some (e.attrs.getD []) }
+
+theorem decodeQs_filterMap_encode : ∀ (l : List Quantity), (∀ q, q ∈ l → (kindCode q.kind).isSome) →
+    decodeQs (l.filterMap encodeQ) = some (l.map normQ) := by
+  intro l
+  induction l with
+  | nil => intro _; rfl
+  | cons q l ih =>
+    intro hall
+    have hq := hall q (by simp)
+    cases hk : kindCode q.kind with
+    | none => simp [hk] at hq
+    | some c =>
+      have henc : encodeQ q = some ⟨c, q.name, q.logly, q.desc, q.attrs.getD []⟩ := by simp [encodeQ, hk]
+      simp only [List.filterMap_cons, henc, decodeQs, List.map_cons]
+      rw [quantity_roundtrip q _ henc, ih (fun x hx => hall x (by simp [hx]))]
+      rfl
+
+/-- QUANTITIES, composed: decoding the exported list gives back the exportable quantities (everything but the stds),
+in kind order and in their original order within a kind, each with its name, kind, log status and description -/
+theorem quantities_roundtrip (qs : List Quantity) :
+    decodeQs (encodeQs qs) = some ((groupQ exportOrder qs).map normQ) := by
+  unfold encodeQs groupQ
+  rw [← List.filterMap_flatMap]
+  apply decodeQs_filterMap_encode
+  intro q hq
+  simp only [List.mem_flatMap, List.mem_filter, decide_eq_true_eq] at hq
+  obtain ⟨k, hk, _, rfl⟩ := hq
+  simp only [exportOrder, List.mem_cons, List.not_mem_nil, or_false] at hk
+  rcases hk with h | h | h | h | h | h | h <;> simp [h, kindCode]
+
+theorem decodeEs_map_encode : ∀ (l : List Equation), decodeEs (l.map encodeE) = some (l.map normE) := by
+  intro l
+  induction l with
+  | nil => rfl
+  | cons e l ih =>
+    simp only [List.map_cons, decodeEs]
+    rw [equation_roundtrip e, ih]
+    rfl
+
+/-- EQUATIONS, composed: decoding the exported list gives back every equation pair, grouped by kind in their original
+order, with kind, dynamic text, steady text and description -/
+theorem equations_roundtrip (es : List Equation) :
+    decodeEs (encodeEs es) = some ((groupE es).map normE) := by
+  unfold encodeEs groupE
+  rw [← List.map_flatMap]
+  exact decodeEs_map_encode _
+
+/-- a model whose quantities are already in kind order (every model built by `from_source` is: `reorder_by_kind`) keeps
+the ORDER of its exportable quantities -/
+theorem quantities_roundtrip_sorted (qs : List Quantity) (h : groupQ exportOrder qs = qs.filter (fun q => !q.kind.isStd)) :
+    decodeQs (encodeQs qs) = some ((qs.filter (fun q => !q.kind.isStd)).map normQ) := by
+  rw [quantities_roundtrip, h]
+
+/- The remaining steps of `fromPortable (toPortable d vars)` -- `missingAnt = []`, `stdsOf` of the decoded list equals the
+std quantities of `d`, `groupQ fullOrder` is the identity on a sorted list, `importVariant` returns the exported values
+(`variant_values_roundtrip` + idempotence of the assignment rules) -- are NOT composed into one theorem here; the executable
+`fromPortable (toPortable ·)` is compared with `from_portable(to_portable(m))` on every generated model (`port rt` lines). -/
 
 example : encodeQ (q "ant_e" .antShock none |>.attrs |> fun _ => { name := "ant_e", kind := .antShock, logly := none, attrs := none })
     = some ⟨"#v", "ant_e", none, "", []⟩ := rfl
